@@ -104,6 +104,9 @@ def run(ctx, chk):
              'architectural sources (pure moves checked bit-exactly)', floor=500)
     chk.rule('C05.4', 'D', 'AF,BC,DE,HL,SP stay within 0..0xffff at every exit', floor=500)
     chk.rule('C05.5', 'D', 'low nibble of F is zero at every exit', floor=500)
+    chk.rule('C05.7', 'D', 'value level, all operands at once: per encoding and interpreter path, every bit of A, F, BC, DE, '
+             'HL (and SP / bus addresses and values of data instructions) is the same function of the input bits as in the '
+             'SM83 reference semantics (canonical ROBDD per bit; a difference is reported with a concrete operand)', floor=500)
     chk.rule('C05.6', 'N', 'carry / half-carry decisions depend on every operand bit they must depend on', floor=40)
     facts = ctx.facts('default')
     prog = ctx.program('default')
@@ -200,6 +203,10 @@ def run(ctx, chk):
         # rule 6
         if not same_operand:
             check_carry_dependence(chk, name, ref, variant, wa, okp, ifile)
+    from .. import valsem
+    valsem.apply_rule(ctx, chk, 'C05.7', lambda mn, c: c in ('A', 'F', 'AF', 'BC', 'DE', 'HL') or
+                      (c in ('SP', 'bus') and mn not in valsem.STACK_OPS))
+    valsem.suppress_subsumed(ctx, chk, ('C05.2', 'C05.3', 'C05.4', 'C05.5', 'C05.6'))
     chk.assumptions += ['entry state: register pairs within 16 bits and F low nibble zero (the invariant rules 4/5 re-establish)',
                         'value-level arithmetic (e.g. the DAA adjustment table) is not decided; rule 6 checks only that '
                         'required operand bits reach the carry decisions (syntactic support, a necessary condition)']
